@@ -8,12 +8,13 @@ for base in sys.argv[1:]:
     for f in glob.glob(os.path.join(base, "*", "eval_quick_seed1.json")):
         sid = os.path.basename(os.path.dirname(f))
         r = json.load(open(f))
-        if len(r) >= 20 or sid not in rows:
-            rows.setdefault(sid, {}).update(r)
+        # later directories override earlier ones cell by cell (a target-only re-run refreshes one cell)
+        rows.setdefault(sid, {}).update(r)
 props = ["C%02d" % i for i in range(1, 21)]
 lines = ["# Detection matrix: seeded changes x quick checks (seed 1)", "",
          "`X` = the check reported a VIOLATION (exit 1) on the tree with the change applied; `.` = silent; `?` = inconclusive (exit 2); blank = not run.",
-         "Rows: `Cxx a,b` round 1, `c,d` round 2 (dynamic defects), `e,f` round 3 (unusual inputs). The property the change was aimed at is the row's prefix.", "",
+         "Rows: `Cxx a,b` round 1, `c,d` round 2 (dynamic defects), `e,f` round 3 (unusual inputs), `g,h` round 4 (meant to survive randomized testing). The property the change was aimed at is the row's prefix.",
+         "Rows a-f: every cell was measured with the harness as it was at the end of round 3; the cell of the targeted property was measured again with the final harness. Rows g,h: every cell with the final harness of round 4.", "",
          "| seed | " + " | ".join(p[1:] for p in props) + " | caught by target | caught by any |", "|---|" + "---|" * (len(props) + 2)]
 tot = tgt = anyc = 0
 for sid in sorted(rows):
@@ -26,6 +27,8 @@ for sid in sorted(rows):
     a = any(v["rc"] == 1 for v in r.values())
     tot += 1; tgt += t; anyc += a
     lines.append("| %s | %s | %s | %s |" % (sid, " | ".join(cells), "yes" if t else "NO", "yes" if a else "NO"))
+    # keep the merged row next to the seed
+    json.dump(r, open(os.path.join("/verif/seeded", sid, "eval_quick_seed1.json"), "w"), indent=1) if os.path.isdir(os.path.join("/verif/seeded", sid)) else None
     mp = os.path.join("/verif/seeded", sid, "meta.json")
     if os.path.exists(mp):
         m = json.load(open(mp))
